@@ -69,6 +69,12 @@ Section Skel.
     | [] => mret s
     | x :: r => mbind (body s x) (fun sb => if snd sb then mret (fst sb) else for_break body r (fst sb))
     end.
+  (* for x in xs: body  (no break) *)
+  Fixpoint for_each {S : Type} (body : S -> V -> M S) (xs : list V) (s : S) : M S :=
+    match xs with
+    | [] => mret s
+    | x :: r => mbind (body s x) (fun s' => for_each body r s')
+    end.
 End Skel.
 
 Arguments Ev {V} _ _.
@@ -82,6 +88,7 @@ Arguments need_int {V} _ _.
 Arguments try_reraise {V A} _ _ _.
 Arguments try_map {V A} _ _ _ _.
 Arguments for_break {V S} _ _ _.
+Arguments for_each {V S} _ _ _.
 
 Notation "x <<- m ;; k" := (mbind m (fun x => k))
   (at level 61, m at next level, right associativity).
